@@ -55,6 +55,13 @@ def h_entries(eng, names):
         eng.prove(dim == {DIM[k]: Fraction(e) for k, e in vec.items() if k in DIM}, f"dimensionality:{name}")
         if sym is not None:
             eng.prove(ureg.get_symbol(name) == sym, f"symbol:{name}")
+        # the registry-level factor API answers from its own tables: same value
+        f, ru = ureg.get_root_units(name)
+        eng.prove(Eq(f, value * Fraction(1000) ** kg), f"get_root_units:{name}")
+        eng.prove({k: _num(v) for k, v in ru._units.items() if k not in DIMLESS_ROOTS} == want, f"get_root_units-units:{name}")
+        fb, bu = ureg.get_base_units(name)
+        back = ureg.Quantity(fb, bu).to_root_units()
+        eng.prove(Eq(back.magnitude, value * Fraction(1000) ** kg), f"get_base_units:{name}")
 
 
 def h_temperatures(eng):
